@@ -177,6 +177,9 @@ type artTree struct {
 	// COW + CAS: readers are lock-free; writers clone payloads and CAS root/parent.
 	root  atomic.Pointer[artNode]
 	arena *Arena
+	// writeMu serializes writers: a CAS install on a node that another writer is
+	// concurrently replacing with a clone would be lost with the detached node.
+	writeMu sync.Mutex
 }
 
 func newARTree(arenaSize int64) *artTree {
@@ -219,6 +222,8 @@ func (t *artTree) Set(key []byte, value kv.ValueStruct) {
 	if t == nil || len(key) == 0 {
 		return
 	}
+	t.writeMu.Lock()
+	defer t.writeMu.Unlock()
 	for {
 		if t.tryInsert(key, value) {
 			return
